@@ -672,6 +672,12 @@ macro_rules! define_frost_core { () => {
             commitment_list: &[Commitment], group_pk: GroupPublicKey,
             msg: &[u8]) -> bool
         {
+            // The commitment list must be ordered with no duplicate (this
+            // is the same validation as in SignerPrivateKeyShare::sign()).
+            if !commitment_list_is_sorted(commitment_list) {
+                return false;
+            }
+
             let binding_factor_list = compute_binding_factors(
                 group_pk, commitment_list, msg);
             let group_commitment = compute_group_commitment(
@@ -1023,6 +1029,12 @@ macro_rules! define_frost_core { () => {
             signer_public_keys: &[SignerPublicKey], msg: &[u8])
             -> Option<Signature>
         {
+            // The commitment list must be ordered with no duplicate (this
+            // is the same validation as in SignerPrivateKeyShare::sign()).
+            if !commitment_list_is_sorted(commitment_list) {
+                return None;
+            }
+
             // Verify all shares.
             let binding_factor_list = compute_binding_factors(
                 self.group_pk, commitment_list, msg);
@@ -1066,6 +1078,19 @@ macro_rules! define_frost_core { () => {
     }
 
     // ---------------- internal helper functions ------------------
+
+    /// Checks that a list of commitments is ordered by increasing
+    /// identifier, with no duplicate.
+    fn commitment_list_is_sorted(commitment_list: &[Commitment]) -> bool {
+        for i in 1..commitment_list.len() {
+            if scalar_cmp_vartime(commitment_list[i - 1].ident,
+                commitment_list[i].ident) != Ordering::Less
+            {
+                return false;
+            }
+        }
+        true
+    }
 
     /// A binding factor.
     #[derive(Clone, Copy, Debug)]
